@@ -17,6 +17,7 @@ uint8_t v_nondet_u8() { return (uint8_t)next(); }
 uint32_t v_nondet_u32() { return (uint32_t)next(); }
 uint64_t v_nondet_u64() { return next(); }
 bool v_nondet_bool() { return next() & 1; }
+void v_alloc_order_reset() {}   // symbolic build only: allocation-order model of std::less<T*> (rt.c)
 uint32_t v_param(uint32_t k) { char n[32]; snprintf(n, sizeof n, "V_PARAM%u", k); const char *e = getenv(n); return e ? (uint32_t)strtoul(e, 0, 10) : 0; }
 double v_sqrt_uf(double x) { return __builtin_sqrt(x); }
 // C20 native confirmation: byte snapshot of the registered object and of every heap block allocated before the epoch;
